@@ -183,6 +183,8 @@ def scenario(draw, ensembles=ENSEMBLES, calc_styles=("caching",), constraints=Tr
         scn["excluded_known"] += excl
         entries.append(e)
     scn["entries"] = entries
+    # table names in a generated, generally non-alphabetical order (the table order is state; names are not)
+    scn["names"] = list(draw(st.permutations(["zeta", "alpha", "mid", "beta"])))
     if alias and draw(st.integers(0, 2)) == 0:
         scn["alias_of"] = draw(st.integers(0, len(entries) - 1))
     if alias and len(entries) > 1 and draw(st.integers(0, 2)) == 0:
@@ -280,7 +282,8 @@ def build_simulation(scn, logfile=None, criteria="scripted", extra_kw=None):
         if "alias_of" in scn:
             # the same move object listed under a second name
             cr = ScriptedCriteria() if criteria == "scripted" else real_criteria_for(scn["entries"][scn["alias_of"]], ens)
-            mc.add_move(mc.moves[f"e{scn['alias_of']}"].move, criteria=cr, name=f"e{len(scn['entries'])}")
+            first = list(mc.moves)[scn["alias_of"]]
+            mc.add_move(mc.moves[first].move, criteria=cr, name=(scn["names"][len(scn["entries"])] if scn.get("names") else f"e{len(scn['entries'])}"))
             crits.append(cr)
     return mc, atoms, {"criteria": crits, "calc_params": params}
 
@@ -409,8 +412,11 @@ class MCMachine(HistoryMachine):
     def entry_names(self):
         return list(self.mc.moves)
 
+    def entry_index(self, name):
+        return list(self.mc.moves).index(name)
+
     def entry_expr(self, name):
-        i = int(name[1:])
+        i = self.entry_index(name)
         ents = self.scn["entries"]
         return ents[i] if i < len(ents) else ents[self.scn["alias_of"]]
 
